@@ -1,0 +1,13 @@
+//go:build verif
+
+// Verification hook of the work package "c07c10" (property C07, forced two-goroutine schedules): lets the harness put
+// a decorator around the plugin's IPAM so that a goroutine can be parked between the count (ByPrefix) and the
+// allocation of Filter.  Compiled only with -tags verif; nothing here changes behaviour of the production build.
+package schedulerplugin
+
+import "tkestack.io/galaxy/pkg/ipam/floatingip"
+
+// VerifC07WrapIPAM replaces the plugin's IPAM by wrap(current IPAM).  Call before the plugin is used concurrently.
+func (p *FloatingIPPlugin) VerifC07WrapIPAM(wrap func(floatingip.IPAM) floatingip.IPAM) {
+	p.ipam = wrap(p.ipam)
+}
